@@ -244,4 +244,76 @@ example : sortiert [3, 1, 2, 1] = [1, 1, 2, 3] := by decide
 example : spalte [97, 44, 98, 44, 44, 99] 44 = [[97], [98], [], [99]] := by decide
 example : einfuegen [1, 2, 3] 2 9 = some [1, 9, 2, 3] := by decide
 
+/-! ### numbers -/
+
+theorem max2_ge (a b : Int) : a ≤ max2 a b ∧ b ≤ max2 a b ∧ (max2 a b = a ∨ max2 a b = b) := by
+  unfold max2; split <;> omega
+
+theorem min2_le (a b : Int) : min2 a b ≤ a ∧ min2 a b ≤ b ∧ (min2 a b = a ∨ min2 a b = b) := by
+  unfold min2; split <;> omega
+
+theorem max3_ge (a b c : Int) : a ≤ max3 a b c ∧ b ≤ max3 a b c ∧ c ≤ max3 a b c := by
+  unfold max3 max2; split <;> split <;> omega
+
+theorem clamp_range (w lo hi : Int) (h : lo ≤ hi) : lo ≤ clamp w lo hi ∧ clamp w lo hi ≤ hi := by
+  unfold clamp; split <;> (try split) <;> omega
+
+theorem clamp_inside (w lo hi : Int) (h1 : lo ≤ w) (h2 : w ≤ hi) : clamp w lo hi = w := by
+  unfold clamp; split <;> (try split) <;> omega
+
+theorem sign_spec (a : Int) : (a < 0 → sign a = -1) ∧ (a > 0 → sign a = 1) ∧ (a = 0 → sign a = 0) := by
+  unfold sign; refine ⟨?_, ?_, ?_⟩ <;> intro h <;> split <;> (try split) <;> omega
+
+theorem ggT_divides (a b : Nat) : ggT a b ∣ a ∧ ggT a b ∣ b := ⟨Nat.gcd_dvd_left a b, Nat.gcd_dvd_right a b⟩
+
+theorem ggT_greatest (a b d : Nat) (ha : d ∣ a) (hb : d ∣ b) : d ∣ ggT a b := Nat.dvd_gcd ha hb
+
+/-- the product of the prime factors is the number -/
+theorem primAux_prod : ∀ (fuel n d : Nat), 1 ≤ n → (primAux fuel n d).foldl (· * ·) 1 = n := by
+  intro fuel
+  induction fuel with
+  | zero =>
+    intro n d hn
+    unfold primAux
+    split
+    · simp
+    · have : n = 1 := by omega
+      simp [this]
+  | succ fuel ih =>
+    intro n d hn
+    unfold primAux
+    split
+    · have : n = 1 := by omega
+      simp [this]
+    · split
+      · simp
+      · split
+        · rename_i h1 h2 hdiv
+          have hmod : n % d = 0 := by simpa using hdiv
+          have hd : 0 < d := by
+            cases d with
+            | zero => simp at h2; omega
+            | succ k => omega
+          have hq : 1 ≤ n / d := by
+            have : d ≤ n := by
+              have : d * d ≤ n := by omega
+              calc d ≤ d * d := Nat.le_mul_self d
+                _ ≤ n := this
+            exact Nat.div_pos this hd
+          have := ih (n / d) d hq
+          simp only [List.foldl_cons, Nat.one_mul]
+          have key : ∀ (l : List Nat) (a : Nat), l.foldl (· * ·) a = a * l.foldl (· * ·) 1 := by
+            intro l
+            induction l with
+            | nil => intro a; simp
+            | cons x r ihl => intro a; simp only [List.foldl_cons]; rw [ihl (a * x), ihl (1 * x)]; simp [Nat.mul_assoc]
+          rw [key, this]
+          exact Nat.mul_div_cancel' (Nat.dvd_of_mod_eq_zero hmod)
+        · exact ih n (d + 1) hn
+
+theorem primfaktoren_prod (z : Nat) (h : 1 ≤ z) : (primfaktoren z).foldl (· * ·) 1 = z := primAux_prod _ _ _ h
+
+example : primfaktoren 360 = [2, 2, 2, 3, 3, 5] := by decide
+example : kgV 4 6 = 12 ∧ ggT 12 18 = 6 := by decide
+
 end DDP.Duden
